@@ -67,7 +67,8 @@ def work(args):
             if rec["wr"]["kind"] != "none":
                 r["wfail_call"] = rec["wr"]["k"]
                 r["wshort"] = rec["wr"]["kind"] == "short"
-                what = "write #%d %s" % (rec["wr"]["k"], "is short" if r["wshort"] else "fails")
+                r["wonce"] = rec["wr"]["kind"] == "once"
+                what = "write #%d %s" % (rec["wr"]["k"], "is short" if r["wshort"] else "fails once (later writes would succeed)" if r["wonce"] else "fails")
             if rec["rd"]["on"]:
                 li = rec["rd"]["line"]
                 if li <= len(lines):
@@ -134,6 +135,11 @@ def gzip_faults(b, v, tier, seed):
         meta.append((si, "ff", 0))
         offs = sorted(set(list(range(0, len(gzd), stride)) + list(range(max(0, len(gzd) - 12), len(gzd))) + list(range(0, min(len(gzd), 14)))))
         for k in offs:
+            try:
+                gzip.decompress(gzd[:k])
+                continue        # a cut exactly at a member boundary leaves a complete, shorter archive: not a fault
+            except Exception:
+                pass
             reqs.append({"opts": cfg.opts, "input_b64": common.b64(gzd[:k]), "gz": True, "rfail_after": -1, "chunk": [0, 3][k % 2]})
             meta.append((si, "cut", k))
         for k in offs:
@@ -319,7 +325,7 @@ def run(tier):
     if not b.inproc or "stream" not in b.ops:
         raise common.Infra("in-process stream driver needed for exact k-th read/write faults")
     maxlen = 3 if tier == "quick" else 4
-    t = sl.run_stream_mc(KINDS, maxlen, wrkinds=("none", "err", "short"), rd_on=True, bars=(True, False))
+    t = sl.run_stream_mc(KINDS, maxlen, wrkinds=("none", "err", "once", "short"), rd_on=True, bars=(True, False))
     recs = list(enumerate(t.records))
     _G.update(b=b, pool=sl.Pool(v.seed), cfgs=sl.stream_cfgs("full"), seed=v.seed, variants=2 if tier == "quick" else 3)
     chunks = [(i, c) for i, c in enumerate(common.chunks(recs, 400))]
